@@ -774,3 +774,34 @@ V("twin: Sphere with the last column written through a view", "C13", CURVE, "   
 V("twin: Sphere built on an alias of the buffer", "C13", CURVE, "        m[-1, :] = c\n        m[:, -1] = c\n", "        k = m\n        k[-1, :] = c\n        k[:, -1] = c\n", "silent")
 V("twin: from_points that patches an entry of the source matrix afterwards (unread write)", "C08", TRANS, "        d1 = np.linalg.solve(m1, a[-1])  # type: ignore[arg-type]\n",
   "        m1[0, 0] = m1[0, 0] + 0\n        d1 = np.linalg.solve(m1, a[-1])  # type: ignore[arg-type]\n", "silent")
+
+
+# ------------------------------------------------------------------------------------------------ the closed form of the cross ratio (E19.cr)
+OPERATORS = "geometer/operators.py"
+V("crossratio returns the reciprocal", "C11", OPERATORS, "        return ac * bd / (ad * bc)", "        return ad * bc / (ac * bd)", "E19.cr", "crossratio", quick=True)
+V("crossratio pairs a with b in one determinant", "C11", OPERATORS, "    ad = det(np.stack([*o, a, d], axis=-2))", "    ad = det(np.stack([*o, a, b], axis=-2))", "E19.cr", "crossratio")
+V("crossratio with c and d exchanged in the numerator only", "C11", OPERATORS, "    bd = det(np.stack([*o, b, d], axis=-2))", "    bd = det(np.stack([*o, b, c], axis=-2))", "E19.cr", "crossratio")
+V("crossratio reduces the points with the basis (a, c)", "C11", OPERATORS, "        basis = np.stack([a.array, b.array], axis=-2)", "        basis = np.stack([a.array, c.array], axis=-2)", "silent")
+V("twin: crossratio as a product of two quotients", "C11", OPERATORS, "        return ac * bd / (ad * bc)", "        return (ac / ad) * (bd / bc)", "silent")
+V("twin: crossratio with both determinant pairs transposed", "C11", OPERATORS, "    ac = det(np.stack([*o, a, c], axis=-2))\n    bd = det(np.stack([*o, b, d], axis=-2))",
+  "    ac = det(np.stack([*o, c, a], axis=-2))\n    bd = det(np.stack([*o, d, b], axis=-2))", "silent")
+
+
+# ------------------------------------------------------------------------------------------------ area and centroid of the planar polygon (E19.poly)
+V("centroid weights the fan triangles by absolute areas", "C17", SHAPES, "weights = [det(self._normalized_projection()[[0, i, i + 1]]) / 2 for i in range(1, points.shape[0] - 1)]",
+  "weights = [np.abs(det(self._normalized_projection()[[0, i, i + 1]])) / 2 for i in range(1, points.shape[0] - 1)]", "E19.poly", "Polygon.centroid", quick=True)
+V("centroid of the fan triangles taken over two of their vertices", "C17", SHAPES, "centroids = [np.average(points[[0, i, i + 1], :-1], axis=0) for i in range(1, points.shape[0] - 1)]",
+  "centroids = [np.average(points[[i, i + 1], :-1], axis=0) for i in range(1, points.shape[0] - 1)]", "E19.poly", "Polygon.centroid")
+V("area leaves out the last triangle of the fan", "C17", SHAPES, "for i in range(1, points.shape[-2] - 1))\n        return 1 / 2 * np.abs(a)", "for i in range(1, points.shape[-2] - 2))\n        return 1 / 2 * np.abs(a)",
+  "E19.poly", "PolygonTensor.area")
+V("area without the factor 1/2", "C17", SHAPES, "        return 1 / 2 * np.abs(a)", "        return np.abs(a)", "E19.poly", "PolygonTensor.area")
+V("twin: area as half the absolute shoelace sum written the other way round", "C17", SHAPES, "        return 1 / 2 * np.abs(a)", "        return np.abs(a) / 2", "silent")
+V("twin: centroid with the fan anchored at the last vertex", "C17", SHAPES,
+  "        centroids = [np.average(points[[0, i, i + 1], :-1], axis=0) for i in range(1, points.shape[0] - 1)]\n        weights = [det(self._normalized_projection()[[0, i, i + 1]]) / 2 for i in range(1, points.shape[0] - 1)]",
+  "        centroids = [np.average(points[[-1, i, i + 1], :-1], axis=0) for i in range(0, points.shape[0] - 2)]\n        weights = [det(self._normalized_projection()[[-1, i, i + 1]]) / 2 for i in range(0, points.shape[0] - 2)]", "silent")
+_CENTROID_OLD = ("        centroids = [np.average(points[[0, i, i + 1], :-1], axis=0) for i in range(1, points.shape[0] - 1)]\n"
+                 "        weights = [det(self._normalized_projection()[[0, i, i + 1]]) / 2 for i in range(1, points.shape[0] - 1)]\n")
+_CENTROID_VEC = ("        projection = self._normalized_projection()\n        triangles = [[0, i, i + 1] for i in range(1, points.shape[0] - 1)]\n"
+                 "        centroids = np.average(points[triangles, :-1], axis=1)\n        weights = {w} / 2\n")
+V("centroid vectorised over the fan, weighted by absolute areas", "C17", SHAPES, _CENTROID_OLD, _CENTROID_VEC.format(w="np.abs(det(projection[triangles]))"), "E19.poly", "Polygon.centroid")
+V("twin: centroid vectorised over the fan with signed areas", "C17", SHAPES, _CENTROID_OLD, _CENTROID_VEC.format(w="det(projection[triangles])"), "silent")
